@@ -431,6 +431,110 @@ theorem handleLeafList_floats (xs : List Nat) (t0 : Nat) (hne : xs ≠ []) :
   have h := length_pos_of_ne_nil xs hne
   simp [handleLeafList, llCollect_floats, h]
 
+theorem llWidth_of_widthOK (opts : List Nat) (h : widthOK opts = true) :
+    wrapI32 (llWidth (opts.headD 0 % 256)) = (modelWidth opts : Int) := by
+  cases opts with
+  | nil => simp only [List.headD_nil, llWidth, modelWidth]; exact wrapI32_of_range _ (by omega) (by omega)
+  | cons w r =>
+    simp only [widthOK, Bool.or_eq_true, decide_eq_true_eq] at h
+    have hmod : w % 256 = w := by omega
+    have hw : w > 0 := by omega
+    simp only [List.headD_cons, llWidth, modelWidth, hmod, hw, if_true]
+    exact wrapI32_of_range _ (by omega) (by omega)
+
+/-! ### homogeneous lists are images of their member lists -/
+
+theorem collectStrs_spec : ∀ (es : List Scalar) (xs : List (Bool × Bytes)),
+    collectStrs es = some xs → es = xs.map strScalar ∧ es.map norm = (xs.map (·.2)).map .str := by
+  intro es
+  induction es with
+  | nil => intro xs h; simp [collectStrs] at h; subst h; simp
+  | cons e r ih =>
+    intro xs h
+    cases e <;> simp only [collectStrs] at h <;> try (exact absurd h (by simp))
+    all_goals
+      cases hr : collectStrs r with
+      | none => simp [hr] at h
+      | some ys =>
+        simp only [hr, Option.some.injEq] at h
+        subst h
+        obtain ⟨h1, h2⟩ := ih ys hr
+        simp [strScalar, norm, h2, ← h1]
+
+theorem collectInts_spec : ∀ (es : List Scalar) (xs : List Int), collectInts es = some xs → es = xs.map .int := by
+  intro es
+  induction es with
+  | nil => intro xs h; simp [collectInts] at h; subst h; rfl
+  | cons e r ih =>
+    intro xs h
+    cases e <;> simp only [collectInts] at h <;> try (exact absurd h (by simp))
+    cases hr : collectInts r with
+    | none => simp [hr] at h
+    | some ys => simp only [hr, Option.some.injEq] at h; subst h; simp [← ih ys hr]
+
+theorem collectUints_spec : ∀ (es : List Scalar) (xs : List Nat), collectUints es = some xs → es = xs.map .uint := by
+  intro es
+  induction es with
+  | nil => intro xs h; simp [collectUints] at h; subst h; rfl
+  | cons e r ih =>
+    intro xs h
+    cases e <;> simp only [collectUints] at h <;> try (exact absurd h (by simp))
+    cases hr : collectUints r with
+    | none => simp [hr] at h
+    | some ys => simp only [hr, Option.some.injEq] at h; subst h; simp [← ih ys hr]
+
+theorem collectBools_spec : ∀ (es : List Scalar) (xs : List Bool), collectBools es = some xs → es = xs.map .bool := by
+  intro es
+  induction es with
+  | nil => intro xs h; simp [collectBools] at h; subst h; rfl
+  | cons e r ih =>
+    intro xs h
+    cases e <;> simp only [collectBools] at h <;> try (exact absurd h (by simp))
+    cases hr : collectBools r with
+    | none => simp [hr] at h
+    | some ys => simp only [hr, Option.some.injEq] at h; subst h; simp [← ih ys hr]
+
+theorem collectBytess_spec : ∀ (es : List Scalar) (xs : List Bytes), collectBytess es = some xs → es = xs.map .bytes := by
+  intro es
+  induction es with
+  | nil => intro xs h; simp [collectBytess] at h; subst h; rfl
+  | cons e r ih =>
+    intro xs h
+    cases e <;> simp only [collectBytess] at h <;> try (exact absurd h (by simp))
+    cases hr : collectBytess r with
+    | none => simp [hr] at h
+    | some ys => simp only [hr, Option.some.injEq] at h; subst h; simp [← ih ys hr]
+
+theorem collectFloats_spec : ∀ (es : List Scalar) (xs : List Nat), collectFloats es = some xs → es = xs.map .float := by
+  intro es
+  induction es with
+  | nil => intro xs h; simp [collectFloats] at h; subst h; rfl
+  | cons e r ih =>
+    intro xs h
+    cases e <;> simp only [collectFloats] at h <;> try (exact absurd h (by simp))
+    cases hr : collectFloats r with
+    | none => simp [hr] at h
+    | some ys => simp only [hr, Option.some.injEq] at h; subst h; simp [← ih ys hr]
+
+theorem collectDecs_spec (p : Nat) : ∀ (es : List Scalar) (xs : List Int),
+    collectDecs p es = some xs → es = xs.map fun d => .dec d p := by
+  intro es
+  induction es with
+  | nil => intro xs h; simp [collectDecs] at h; subst h; rfl
+  | cons e r ih =>
+    intro xs h
+    cases e with
+    | dec d q =>
+      simp only [collectDecs] at h
+      by_cases hq : q = p
+      · subst hq
+        simp only [if_true] at h
+        cases hr : collectDecs q r with
+        | none => simp [hr] at h
+        | some ys => simp only [hr, Option.some.injEq] at h; subst h; simp [← ih ys hr]
+      · simp [hq] at h
+    | _ => simp [collectDecs] at h
+
 /-! ### decimal digits: `%d` prints exactly the value's digits -/
 
 theorem toDigits_all_digit (n : Nat) : (Nat.toDigits 10 n).all Char.isDigit = true := by
